@@ -1,4 +1,4 @@
 SPECIFICATION TSpec
-CONSTANTS EntityRegexAllowsDigits = TRUE
+CONSTANTS EntityRegexAllowsDigits = TRUE FirstDeclarationBecomesDefault = FALSE
 POSTCONDITION Consumed
 CHECK_DEADLOCK FALSE
